@@ -17,6 +17,10 @@ CLAIMED = {
    text="Machine-checked proof (Lean 4, full): one *_spec theorem per exported function of pkg/slice (40 theorems) proving, for all heaps, all valid slice values (any offset/len/cap), all element types and callbacks, that the function returns exactly its List specification (map, mapIdx, filter, flatMap, flatten, ++, take/drop, head?/tail/getLast?/dropLast, zipWith, foldl, all/any/find?, first-occurrence de-duplication, sorted permutation) under exactly the domain guard the Go code has, plus *_panics theorems for the error branches. Tied to /repo by the regenerated function inventory and by exhaustive small-slice x every-function x every-parameter correspondence runs against the real package.",
    design="§5 C13", technique="Lean 4 theorems (loop invariants over a Go slice heap model) + exhaustive small-domain correspondence with the real package",
    note="Trusted: Lean kernel; the heap model; slices.SortFunc assumed to leave an ascending permutation (checked on every observed call); the named callback family is implemented twice (Go, Lean). Integers unbounded in the model."),
+ "C05": dict(
+   text="Machine-checked proof (Lean 4) of every enumeration consumer + regenerated inventory: eqsUnion_order_indep, rsRegisterNewEI_order_indep, piRegAll_order_indep, lookupRecFac_order_indep (after fix 5aa1ab1; witness lookup_unfixed_order_dependent for the old code), exhaustive_decision_order_indep prove for ALL pairs of enumeration orders that what the rest of the compiler observes (dictionary as a finite map, accept/reject decision, chosen record) is the same; fact_enumSites proves by decide that the REGENERATED list of dict.Keys/Values/KVs calls, map range loops, goroutines, time/rand/environment/%p uses in fc, pkg and cmd is exactly these consumers. The composition into byte-identical output is argued (DESIGN.md) and tied by running fc built against an adversarial permuting dict package (overlay) under several seeds and the stock binary repeatedly on a corpus incl. the 12 compiler sources.",
+   design="§5 C05", technique="Lean 4 order-independence theorems per consumer + decide over a regenerated site inventory + permuted-dictionary metamorphic runs",
+   note="Trusted: Lean kernel; dict model of C14; go/ast site extractor (syntactic); composition argued, not proved; slices.SortFunc by name returns the unique ascending arrangement (names are distinct keys)."),
  "C08": dict(
    text="Machine-checked proof (Lean 4): climb_eq_group proves for EVERY operator chain (any length, operators, operands, any precedence table) that the recursion scheme of parseExprWithPrec/parseBinAfter (minPrec, Precedence+1 for the right operand) returns the reference grouping (insertion into the right spine = grouping by rank, left-associative; validated by group_flatten, group_canon); table_is_published proves by decide that the REGENERATED binOpMap equals the published table, fact_precedenceUses pins the comparison and the +1. Partial at token level: the token parser with psSkipEOL and the term parser (application, not, parentheses) is an executable model tied by execution (every oracle answer re-checked against group) and by the c08.chain correspondence with the real parser+emitter (all chains of <=3/4 of the 12 operators x 3 operand shapes exhaustively, random chains with pipes/not/parens/line breaks), not by a Lean refinement proof.",
    design="§5 C08", technique="Lean 4 theorem (precedence climbing = reference grouping, induction on fuel) + decide over regenerated table + exhaustive/ random correspondence through the real parser and emitter",
@@ -85,7 +89,7 @@ def main():
             {"name": "harness", "path": "harness/", "serves_properties": sorted(CLAIMED), "kind_free_text": "Go drivers calling the real code in-process, go/ast fact extractor"},
         ],
         "checks": checks,
-        "notes": "Fix commits in /repo: 20f0992 (slice.PushLast), a41e038 (frt.toS), 01c3b5f (frt.OpEqual), 20818f3 (string literals), b8a3c7e e5a41f0 1e8a7fd 2321b63 (C16: hang, dropped write result, two stack overflows). known_findings.json lists fixed and known findings.",
+        "notes": "Fix commits in /repo: 20f0992 (slice.PushLast), a41e038 (frt.toS), 01c3b5f (frt.OpEqual), 20818f3 (string literals), b8a3c7e e5a41f0 1e8a7fd 2321b63 (C16: hang, dropped write result, two stack overflows), 5aa1ab1 (C05 record lookup order). known_findings.json lists fixed and known findings.",
         "not_applicable": na,
     }
     json.dump(m, open(os.path.join(V, "MANIFEST.json"), "w"), indent=1)
